@@ -44,13 +44,22 @@ Fixpoint extend_weights (C : F) (xs ws news : list F) : list F * list F :=
       extend_weights C (xs ++ [xn]) (ws1 ++ [wn]) rest
   end.
 
-(* Lagrange.refine for one input dimension: old = None initialises *)
+(* Lagrange.refine for one input dimension: old = None initialises; when the grid of an existing state grows, ALL its
+   weights are recomputed with the current capacity C (the domain may have moved since the old weights were computed);
+   an unchanged grid keeps its weights.  The incremental update extend_weights above is the formula the code used
+   before the repair recorded in known_findings.json; it is kept for C05_extend_weights and C04_weights_refuted. *)
 Definition refine1 (C : F) (old : option (list F * list F)) (pts : list F) : list F * list F :=
   match old with
   | None => let g := extend_grid [] pts in (g, init_weights C g)
   | Some (xs, ws) =>
       let g := extend_grid xs pts in
-      extend_weights C xs ws (skipn (length xs) g)
+      if Nat.ltb (length xs) (length g) then (g, init_weights C g) else (xs, ws)
+  end.
+(* the former incremental form, for the refutation *)
+Definition refine1_incremental (C : F) (old : option (list F * list F)) (pts : list F) : list F * list F :=
+  match old with
+  | None => let g := extend_grid [] pts in (g, init_weights C g)
+  | Some (xs, ws) => let g := extend_grid xs pts in extend_weights C xs ws (skipn (length xs) g)
   end.
 
 (* ------------------------------------------------------------------ prediction *)
